@@ -87,6 +87,11 @@ CHECKS = {
          "47 Standard specs (21 colour types, their Alpha forms, 5 hue types; f32/f64) x all scripts: is_within_bounds and accessor bounds, draw count per sample measured and constant. Uniform: end points per component from {full range, sub-range, equal ends, adjacent floats, 2^-20 of the range} x {new, new_inclusive} x all scripts: every component between the ends (equivalent HSV saturation/value for the HWB forms), hues on the arc from low to high for arcs that do and do not wrap. Volume without statistics: for Hsv/Okhsv/Hsl/Okhsl/Hwb/Okhwb the images of the complete word grid are counted in 16 x 16 equal-volume cells of the cone/bicone (allowed deviation = counted grid points within a quarter step of a cell boundary) and compared with the closed-form inverse CDF derived from the geometry; Standard hue over a complete 2^12 / 2^16 word grid in 64 arcs.",
          "rand 0.8.8's float sampling maps words to [0,1) as read from its source; rand constructor panics (low >= high) produce no colour and are counted, not judged; Hsluv is range-checked only.",
          "§4 C19"),
+ "C15": ("model_checking",
+         "exhaustive enumeration of complete spaces on the real code: the complete 8-bit sRGB cube (all 2^24 colours, thorough; 52^3 grid quick) and N^3 grids of every other RGB standard through every gamut-bounded cylindrical space and back, and a cylinder grid (hue every 1 / 0.25 deg + every sector edge +- ulp, saturation-like x lightness-like 23^2 incl. both bounds) into RGB",
+         "Forward: for HSL, HSV, HWB of every RGB standard, Okhsl, Okhsv, Okhwb and HSLuv (f32/f64; 8 compiler-discovered graphs) every cylinder grid point whose saturation-like and lightness-like components lie within the documented bounds (bounds included; w+b <= 1 for the HWB forms) must convert to RGB components in [0,1] up to the tolerance. Reverse: every in-gamut RGB colour of the grid (complete 256^3 for the sRGB-rooted graph) must convert into each space within its bounds and back to the same RGB colour. The geometric spaces hold to rounding accuracy; HSLuv and the Ok spaces to the accuracy of their published gamut approximations.",
+         "Tolerances: 1e-12 (f64) / 2e-6 (f32) for the geometric spaces; for HSLuv and the Ok spaces the measured accuracy of the published algorithm with 2x slack (forward 4e-3 / 5e-3, bounds 1e-3 / 2.3e-2) - that palette follows those algorithms is C02's claim. Two findings recorded (blue-primary discontinuity, HSLuv saturation at white).",
+         "§4 C15"),
 }
 PENDING = {}
 ALL = ["C%02d" % i for i in range(1, 21)]
